@@ -8,3 +8,5 @@ import FinProtoc.Props.C15
 #print axioms FinProtoc.Props.rangesField_flat
 #print axioms FinProtoc.Props.ranges_mono
 #print axioms FinProtoc.Props.flat_sound_partial
+#print axioms FinProtoc.Props.env_of_conf
+#print axioms FinProtoc.Props.dissect_sound
